@@ -7,7 +7,7 @@ From TV.Lib Require Import Base.
 From TV.Link Require Import Model Facts Topo_proofs.
 Open Scope N_scope.
 
-Definition proj1 (q : N * N) (e : tev) : list ev :=
+Definition proj_ev (q : N * N) (e : tev) : list ev :=
   match e with
   | TRegister _ => []
   | TSend src dst id x r p =>
@@ -19,7 +19,7 @@ Definition proj1 (q : N * N) (e : tev) : list ev :=
   | TLink a b e' => if pair_eqb (pair_of a b) q then [e'] else []
   end.
 
-Definition proj (q : N * N) (es : list tev) : list ev := flat_map (proj1 q) es.
+Definition proj (q : N * N) (es : list tev) : list ev := flat_map (proj_ev q) es.
 
 Lemma get_link_app q a b l : get_link q a = Some l -> get_link q (a ++ b) = Some l.
 Proof.
@@ -56,12 +56,12 @@ Proof. destruct e; cbn [is_global]; intros G; try discriminate; try destruct to_
 (* one topology event = the projected link events, on the link and on the global latency *)
 Lemma tstep_projects t e q l :
   get_link q (tlinks t) = Some l ->
-  get_link q (tlinks (fst (tstep t e))) = Some (fin (run (tg t) l (proj1 q e))) /\
-  tg (fst (tstep t e)) = gfin (run (tg t) l (proj1 q e)).
+  get_link q (tlinks (fst (tstep t e))) = Some (fin (run (tg t) l (proj_ev q e))) /\
+  tg (fst (tstep t e)) = gfin (run (tg t) l (proj_ev q e)).
 Proof.
   intros Hl. destruct e as [h|src dst id x r p|dt|h| |a b e'].
   - (* register *) cbn. split; [apply get_link_app; exact Hl|reflexivity].
-  - (* send *) cbn [proj1]. destruct (pair_eqb (pair_of src dst) q) eqn:E.
+  - (* send *) cbn [proj_ev]. destruct (pair_eqb (pair_of src dst) q) eqn:E.
     + apply pair_eqb_eq in E. subst q.
       split; [rewrite (topo_send_is_step t src dst id x r p l Hl); unfold fin; cbn; reflexivity|].
       cbn [tstep]. rewrite (get_link_has _ _ _ Hl).
@@ -69,7 +69,7 @@ Proof.
     + split; [rewrite (topo_frame_send t src dst id x r p q E); exact Hl|].
       cbn [tstep]. destruct (has_link _ _); [destruct (upd_link _ _ _)|]; reflexivity.
   - (* tick *) split; [rewrite (topo_tick_is_step t dt q l Hl); reflexivity|reflexivity].
-  - (* drain *) cbn [tstep proj1].
+  - (* drain *) cbn [tstep proj_ev].
     pose proof (drain_host_link (tg t) h q (tlinks t) l Hl) as H.
     destruct (drain_host (tg t) h (tlinks t)) as [ls o]. cbn [fst tlinks tg] in *.
     destruct (fst q =? h); [split; [exact H|reflexivity]|].
@@ -78,7 +78,7 @@ Proof.
   - (* link call *)
     destruct (is_global e') eqn:G.
     + destruct e'; cbn in G; try discriminate. cbn. split; [exact Hl|reflexivity].
-    + assert (Hp : proj1 q (TLink a b e') = if pair_eqb (pair_of a b) q then [e'] else [])
+    + assert (Hp : proj_ev q (TLink a b e') = if pair_eqb (pair_of a b) q then [e'] else [])
         by (destruct e'; cbn in G; try discriminate; reflexivity).
       rewrite Hp. destruct (pair_eqb (pair_of a b) q) eqn:E.
       * apply pair_eqb_eq in E. subst q.
@@ -104,7 +104,7 @@ Proof.
     destruct (IH (fst (tstep t e)) q _ H1) as [I1 I2].
     rewrite H2 in I1, I2.
     rewrite run_app.
-    destruct (run (tg t) l (proj1 q e)) as [[g1 l1] o1]. unfold fin, gfin in *; cbn [fst snd] in *.
+    destruct (run (tg t) l (proj_ev q e)) as [[g1 l1] o1]. unfold fin, gfin in *; cbn [fst snd] in *.
     destruct (run g1 l1 (proj q es)) as [[g2 l2] o2]. cbn [fst snd] in *. auto.
 Qed.
 
@@ -173,19 +173,19 @@ Qed.
 Lemma drain_host_out g h ls x :
   In x (snd (drain_host g h ls)) ->
   exists a b l, In ((a, b), l) ls /\
-    In x (outs (run g l (proj1 (a, b) (TDrain h)))).
+    In x (outs (run g l (proj_ev (a, b) (TDrain h)))).
 Proof.
   induction ls as [|[[a b] l] r IH]; cbn [drain_host]; [intros []|].
   destruct (drain_host g h r) as [r' o'] eqn:Er. cbn [snd] in IH.
   assert (Hrest : In x o' -> exists a0 b0 l0, In ((a0, b0), l0) (((a, b), l) :: r) /\
-            In x (outs (run g l0 (proj1 (a0, b0) (TDrain h))))).
+            In x (outs (run g l0 (proj_ev (a0, b0) (TDrain h))))).
   { intros H. destruct (IH H) as (a0 & b0 & l0 & Hin & Hx). exists a0, b0, l0. split; [right; exact Hin|exact Hx]. }
   destruct (a =? h) eqn:Ea.
   - cbn. intros H. apply in_app_or in H as [H|H]; [|auto].
-    exists a, b, l. split; [now left|]. cbn [proj1 fst snd]. rewrite Ea. unfold outs; cbn. rewrite app_nil_r. exact H.
+    exists a, b, l. split; [now left|]. cbn [proj_ev fst snd]. rewrite Ea. unfold outs; cbn. rewrite app_nil_r. exact H.
   - destruct (b =? h) eqn:Eb; [|exact Hrest].
     cbn. intros H. apply in_app_or in H as [H|H]; [|auto].
-    exists a, b, l. split; [now left|]. cbn [proj1 fst snd]. rewrite Ea, Eb. unfold outs; cbn. rewrite app_nil_r. exact H.
+    exists a, b, l. split; [now left|]. cbn [proj_ev fst snd]. rewrite Ea, Eb. unfold outs; cbn. rewrite app_nil_r. exact H.
 Qed.
 
 Lemma tstep_out t e x :
@@ -214,8 +214,8 @@ Proof.
     destruct (drain_host_out _ _ _ _ Hd) as (a & b & l & Hl & Hx).
     exists (a, b), l. split; [apply get_link_in; assumption|].
     cbn [proj flat_map]. rewrite run_app.
-    destruct (run (tg t) l (proj1 (a, b) (TDrain h))) as [[g1 l1] o1]. unfold outs in *; cbn [snd] in *.
-    destruct (run g1 l1 (flat_map (proj1 (a, b)) es)) as [[g2 l2] o2]. cbn. apply in_or_app. auto.
+    destruct (run (tg t) l (proj_ev (a, b) (TDrain h))) as [[g1 l1] o1]. unfold outs in *; cbn [snd] in *.
+    destruct (run g1 l1 (flat_map (proj_ev (a, b)) es)) as [[g2 l2] o2]. cbn. apply in_or_app. auto.
   - assert (Hnd' : NoDup (map fst (tlinks t'))) by (rewrite Hk; exact Hnd).
     destruct (IH t' x Hnd' Hes Hin) as (q & l' & Hl' & Hx).
     destruct (get_link_keys q (tlinks t) (tlinks t') l' (eq_sym Hk) Hl') as [l Hl].
@@ -223,6 +223,6 @@ Proof.
     destruct (tstep_projects t e q l Hl) as [H1 H2]. rewrite Hs in H1, H2. cbn [fst] in H1, H2.
     rewrite Hl' in H1. inversion H1; subst l'. rewrite H2 in Hx.
     cbn [proj flat_map]. fold (proj q es). rewrite run_app.
-    destruct (run (tg t) l (proj1 q e)) as [[g1 l1] o1]. unfold fin, gfin, outs in *; cbn [fst snd] in *.
+    destruct (run (tg t) l (proj_ev q e)) as [[g1 l1] o1]. unfold fin, gfin, outs in *; cbn [fst snd] in *.
     destruct (run g1 l1 (proj q es)) as [[g2 l2] o2]. cbn [snd] in *. apply in_or_app. auto.
 Qed.
